@@ -62,6 +62,10 @@ def grid(quick):
         g.append(("real_iwo", {"initial_population_size": 3, "max_population_size": 5, "min_number_of_seeds": 1,
                                "max_number_of_seeds": 2, "initial_deviation": 0.0, "final_deviation": 0.3,
                                "modulation_index": 2}, pr, (3, 5)))
+        # the colony reaches its maximal size exactly (weeds + seeds = max_population_size)
+        g.append(("real_iwo", {"initial_population_size": 2, "max_population_size": 4, "min_number_of_seeds": 1,
+                               "max_number_of_seeds": 1, "initial_deviation": 0.01, "final_deviation": 0.5,
+                               "modulation_index": 2}, pr, (2, 4)))
         for ip, mp in ([(3, 6)] if quick else [(1, 1), (3, 6), (5, 20)]):
             g.append(("real_iwo", {"initial_population_size": ip, "max_population_size": mp, "min_number_of_seeds": 1,
                                    "max_number_of_seeds": 3, "initial_deviation": 0.01, "final_deviation": 0.5,
